@@ -57,6 +57,8 @@ HARNESSES = [
     H("c20_hexized_string_contract", functions=["num::hexized"], clauses=["for all usize: 16 ASCII bytes (from_utf8_unchecked sound)"], timeout=300, **P),
     H("c20_itoa_value_below_100000", functions=["num::itoa"], clauses=["for n < 100000: digits only, canonical, decimal value == n (real function; cross-check of the Verus unit and its counterexample finder)"],
       timeout=600, crate="ohkami_lib", tier="quick", strength="bounded", bound="n < 100000", crosscheck=True),
+] + [H(f"c20_itoa_value_near_power_of_ten_k{k:02d}", functions=["num::itoa"], clauses=["for every n within 1000 of 10^k (k = 0: the top 2000 values of usize): digits only, canonical, decimal value == n (real function)"],
+        timeout=900, crate="ohkami_lib", tier="quick", strength="bounded", bound="window of 2001 values around 10^k", crosscheck=True) for k in range(20)] + [
     H("c20_itoa_memory_safe_all_usize", functions=["num::itoa"], clauses=["for all usize: every ptr::write inside the 20-byte allocation, 1 <= len <= 20"], timeout=900, **P),
 ]
 
